@@ -1,19 +1,38 @@
 """C12 — every key export format imports back to the same key and metadata."""
 import hashlib, json, os
-from core import Case, REPO
+from core import Case
+import spec_networks as SN
+
+# the two frozen copies of the network specification (harness/spec_networks.py, coq/Model/SpecNetworks.v) must be in sync
+_sync = SN.selftest()
+if _sync is not None:
+    raise RuntimeError('frozen network specification out of sync: ' + _sync)
 
 PROP = 'C12'
 COQ_FILES = ['Extract/C12.v', 'Properties/C12.v']
 DRIVER = 'c12'
 IMPL = 'harness/impl/c12_impl.py'
 ALLOWED_AXIOMS = []
+# a broken proof obligation widens the search with the thorough streams: capped, the quick command must stay within minutes
+ESCALATE_CAP = 2500
 # model flags: Base58 lower-casing retry (irrelevant for every generated input: none contains 'I' or 'O'),
 # fixes/C12-1 applied, fixes/C12-2 applied.  VERIF_C12_FLAGS=000 selects the model of the code before the repairs.
 FLAGS = os.environ.get('VERIF_C12_FLAGS', '011')[:3]
 ASSUMPTIONS = [
     'theorems are about coq/Model/KeyFormat.v (lib_* mirrors keys.get_key_format, check_network_and_key, Key.__init__, '
     'Key.wif, HDKey.__init__, HDKey.from_wif, HDKey.wif and networks.wif_prefix_search / network_by_value / Network.wif_prefix, '
-    'as repaired by fixes/C12-1 and C12-2) over the prefix tables regenerated from bitcoinlib/data/networks.json on every run',
+    'as repaired by fixes/C12-1, C12-2 and C12-3) over the prefix tables regenerated from bitcoinlib/data/networks.json on every run',
+    'network table: the regenerated prefixes_wif rows, WIF version bytes, network names and priorities are proved equal (vm_compute, '
+    'Proofs/SpecNetworksGlue.v; theorems prefixes_wif_rows_are_frozen_spec, wif_version_bytes_are_frozen_spec, '
+    'network_priorities_are_frozen_spec) to the FROZEN specification coq/Model/SpecNetworks.v (reference-client chain parameters, '
+    'SLIP-0132); the property-level oracle takes every expected prefix from the frozen Python twin harness/spec_networks.py (table '
+    'FROZEN = what the library is pinned to, including the documented deviations regtest = mainnet bytes and dogecoin = xpub/xprv, '
+    'which do not affect a round trip), never from /repo',
+    'sessions: a Key / HDKey object is modelled by its visible fields only (keymeta + the current compressed attribute); obligation '
+    '"session/no-hidden-state" = the implementation answers every call of a sequence on ONE object as the stateless model does on '
+    'the current fields (theorem session_is_map_of_stateless_exports); it is discharged by the differential correspondence on the '
+    'request kind seq, and independently by the oracle, which recomputes every exported string from the fields the adapter reports. '
+    'The address text (C04/C05) and the BIP38 text (C15) inside a session are judged by the oracle only, not by the model',
     'tie to /repo: (a) Gen/GenNetworks.v is regenerated each run and every table fact a theorem uses (prefix shape, prefix => '
     'is_private, WIF version bytes vs HD prefixes, script-type column vs witness/multisig columns, shared prefixes) is re-proved '
     'by vm_compute; (b) differential correspondence of every lib_* function against the public API on each run',
@@ -31,6 +50,8 @@ ASSUMPTIONS = [
 RULE = ('exhaustive table stream (every network x private/public x witness type x multisig; every prefix x filter combination; '
         'all 256 version bytes), export-import round trips over all table rows with secrets having 0..8 leading zero bytes, '
         'depths 0..255, boundary child numbers, with and without hints, raw forms, classification of well-formed and mutated strings; '
+        'sessions on one Key / HDKey object (scripted histories on every network + random call sequences: explicit prefixes, witness '
+        'types, multisig flags, child_index, network_change, public(), address(compressed), raw forms, encrypt), every export re-imported; '
         'a case is non-trivial when the implementation returns a value; distinct by request')
 
 # ---------------------------------------------------------------- independent protocol-level helpers
@@ -100,15 +121,11 @@ def b58check(payload):
     return b58enc(payload + sha256d(payload)[:4])
 
 
-_NW = None
-
-
 def table():
-    """networks.json of the tree under test, read directly (independent of Gen/GenNetworks.v)"""
-    global _NW
-    if _NW is None:
-        _NW = json.load(open(os.path.join(REPO, 'bitcoinlib', 'data', 'networks.json'), encoding='utf8'))
-    return _NW
+    """the FROZEN specification table (harness/spec_networks.py: reference-client chain parameters, SLIP-0132) — never /repo.
+    FROZEN rather than REFERENCE: a round trip does not depend on WHICH version bytes a network uses; the two documented
+    deviations of the library (regtest = mainnet bytes, dogecoin = xpub/xprv) are observed by C04."""
+    return SN.FROZEN
 
 
 def rows():
@@ -375,7 +392,142 @@ def gen_cases(rng, tier):
     add('gkf_misc', 'gkf s:- n')
     add('gkf_misc', 'gkf b:- n')
     add('gkf_misc', 'gkf i:0 n')
+
+    # --- F. sessions: several calls on ONE Key / HDKey object (kind seq)
+    for req in gen_sessions(rng, big, nets, pool):
+        add('seq', req)
     return cs
+
+
+def pref_tok(hexs, rng):
+    """explicit version bytes as bytes (b..) or as hex text (s.., either case): both reach the same bytes"""
+    if rng.randrange(3):
+        return 'b' + hexs.lower()
+    return 's' + (hexs.upper() if rng.randrange(2) else hexs.lower())
+
+
+def gen_sessions(rng, big, nets, pool):
+    out = []
+    wifv = {n: table()[n]['prefix_wif'] for n in nets}
+    rows_by_net = {n: [r[0] for r in table()[n]['prefixes_wif']] for n in nets}
+    full = [n for n in nets if len(rows_by_net[n]) == 12]
+
+    def km(si, priv, comp, net, wt, ms, hd, plain=False):
+        sec, pubc, pubu = pool[si % len(pool)]
+        if not hd or plain:
+            return km_tokens(priv, sec, pubc, pubu, comp, b'\0' * 32 if hd else b'', 0, b'\0' * 4, 0, net, wt, ms)
+        return km_tokens(priv, sec, pubc, pubu, comp, bytes(rng.randrange(256) for _ in range(32)), rng.choice(DEPTHS),
+                         bytes(rng.randrange(256) for _ in range(4)), rng.choice(CHILDREN), net, wt, ms)
+
+    def imp():
+        return rng.choice('nhhx')
+
+    def other(n):
+        return rng.choice([x for x in nets if x != n])
+
+    def session(mode, kmt, ops):
+        out.append('seq %s %s %s' % (mode, kmt, ' '.join(ops)))
+
+    k = 0
+    # scripted histories, every network as the starting network
+    for ni, n in enumerate(nets):
+        o1, o2 = other(n), nets[(ni + 3) % len(nets)]
+        for comp in (True, False):
+            k += 1
+            wt = WTS[k % 3] if n in full else 'legacy'
+            ms = bool(k % 4 == 0)
+            # S1: a foreign version byte first, then the plain export; repeated
+            for mode in ('K', 'H', 'KW', 'HW'):
+                session(mode, km(k, True, comp, n, wt, ms and mode != 'HW', mode[0] == 'H', plain=len(mode) == 2),
+                        ['wif:-:h', 'wif:%s:n' % pref_tok(wifv[o1], rng), 'wif:-:h', 'wif:%s:x' % pref_tok(wifv[o2], rng),
+                         'wif:%s:n' % pref_tok(wifv[o2], rng), 'wif:-:n', 'wif:-:h'])
+            # S2: export, move to other networks, export again (HDKey only has network_change)
+            session('H', km(k + 1, True, comp, n, wt, ms, True),
+                    ['wif:-:h', 'xprv:-:-:n:h', 'xpub:-:-:n:h', 'dict:t', 'net:' + o1, 'wif:-:h', 'xprv:-:-:n:h', 'xpub:-:-:n:h', 'x:n:-:-:-:n:h',
+                     'repr', 'dict:t', 'net:nonexistent', 'wif:-:h', 'net:' + n, 'wif:-:h', 'xprv:-:-:n:h'])
+            # S3: the compressed attribute flips through address(); raw forms in between
+            for mode in ('K', 'H'):
+                session(mode, km(k + 2, True, comp, n, 'legacy', False, mode == 'H'),
+                        ['wif:-:h', 'addr:n:-', 'wif:-:h', 'addr:%s:-' % tfs(not comp), 'wif:-:h', 'dict:t', 'hex:f:h', 'bytes:f:h', 'hex:t:h',
+                         'bytes:t:h', 'int:h', 'addr:%s:-' % tfs(comp), 'wif:-:h', 'addr:n:-', 'repr', 'wif:-:n'])
+        # S4: extended exports with explicit arguments, then the defaults again
+        wt = WTS[ni % 3] if n in full else 'legacy'
+        owt = WTS[(ni + 1) % 3]
+        px = rng.choice(rows_by_net[o1])
+        session('H', km(k + 3, True, True, n, wt, bool(ni % 2), True),
+                ['xprv:-:-:n:h', 'xprv:%s:-:n:h' % pref_tok(px, rng), 'xprv:-:-:n:h', 'xpub:-:%s:n:h' % owt, 'xpub:-:-:n:h',
+                 'xprv:-:-:t:h', 'xprv:-:-:f:h', 'xprv:-:%s:t:h' % owt, 'xprv:-:-:n:h', 'x:t:7:-:-:n:h', 'x:t:-:-:-:n:h', 'x:f:0:-:e:f:h',
+                 'x:n:2147483653:-:-:n:h', 'xpub:-:-:n:h', 'xprv:-:-:n:n'])
+        # S5: public() then every export; a public-only object from the start
+        session('H', km(k + 4, True, True, n, wt, False, True),
+                ['wif:-:h', 'xprv:-:-:n:h', 'public', 'wif:-:h', 'xprv:-:-:n:h', 'xpub:-:-:n:h', 'x:t:-:-:-:n:h', 'hex:t:h', 'hex:f:h',
+                 'bytes:t:h', 'bytes:f:h', 'int:h', 'net:' + o1, 'xpub:-:-:n:h', 'wif:-:h'])
+        session('K', km(k + 5, True, bool(ni % 2), n, 'legacy', False, False),
+                ['wif:-:h', 'public', 'wif:-:h', 'hex:t:h', 'bytes:t:h', 'int:h', 'hex:f:h', 'bytes:f:h', 'addr:n:-'])
+        session('H', km(k + 6, False, True, n, wt, bool(ni % 2), True),
+                ['xpub:-:-:n:h', 'xprv:-:-:n:h', 'wif:-:h', 'x:n:-:-:-:n:h', 'hex:f:h', 'bytes:f:h', 'int:h', 'net:' + o2, 'xpub:-:-:n:h'])
+        session('K', km(k + 7, False, bool(ni % 2), n, 'legacy', False, False),
+                ['wif:-:h', 'hex:f:h', 'bytes:f:h', 'hex:t:h', 'addr:n:-', 'bytes:f:h'])
+    # S6: encrypt in the middle of a session (scrypt: a few only); with and without decryption
+    for i in range(10 if big else 3):
+        n = nets[(i * 5 + 1) % len(nets)]
+        pw = bytes(rng.choice(b'abcXYZ019 _') for _ in range(rng.randrange(1, 9))).hex()
+        session('K', km(i, True, bool(i % 2), n, 'legacy', False, False),
+                ['wif:-:h', 'enc:%s:%s' % (pw, 'd' if i % 3 == 0 else 'x'), 'wif:-:h', 'hex:t:h', 'addr:n:-', 'wif:-:n'])
+        session('H', km(i + 1, True, True, n, 'legacy' if n not in full else WTS[i % 3], False, True),
+                ['xprv:-:-:n:h', 'enc:%s:x' % pw, 'xprv:-:-:n:h', 'wif:-:h', 'net:' + other(n), 'enc:%s:x' % pw, 'wif:-:h'])
+    # S7: out-of-range child_index (the serialisation refuses, the field has changed), unknown witness type, odd prefixes
+    sec_i = 5
+    session('H', km(sec_i, True, True, 'bitcoin', 'segwit', False, True),
+            ['x:t:4294967296:-:-:n:h', 'xprv:-:-:n:h', 'wif:-:h', 'x:t:1:-:-:n:h', 'xprv:-:-:n:h'])
+    session('H', km(sec_i, True, True, 'testnet', 'legacy', True, True),
+            ['x:f:-:-:taproot:n:h', 'xprv:-:-:n:h', 'x:t:-:b0488:-:n:x', 'x:t:-:b00000000:-:n:x', 'x:t:-:e:-:n:h', 'xprv:-:e:n:h'])
+    session('K', km(sec_i, True, True, 'bitcoin', 'legacy', False, False),
+            ['wif:e:x', 'wif:-:h', 'wif:b8080:x', 'wif:-:h', 'wif:sEf:x', 'wif:-:n', 'wif:b00:x', 'wif:-:h'])
+    session('H', km(sec_i, True, True, 'dogecoin', 'segwit', False, True),
+            ['xprv:-:-:n:h', 'wif:-:h', 'xprv:-:legacy:n:h', 'net:bitcoin', 'xprv:-:-:n:h'])
+
+    # random call sequences
+    def rand_op(hd, st):
+        r = rng.randrange(100)
+        if r < 22:
+            c = rng.randrange(4)
+            pt = '-' if c < 2 else pref_tok(wifv[rng.choice(nets)], rng)
+            return 'wif:%s:%s' % (pt, imp())
+        if r < 34:
+            return rng.choice(['hex:t:h', 'hex:f:h', 'bytes:t:h', 'bytes:f:h', 'int:h', 'hex:t:x'])
+        if r < 44:
+            return 'addr:%s:%s' % (rng.choice('nntf'), rng.choice(['-', '-', '-', 'b6f', 'b00']))
+        if r < 47:
+            return 'public'
+        if r < 51:
+            return rng.choice(['dict:t', 'dict:f', 'repr'])
+        if not hd:
+            return 'wif:-:%s' % imp()
+        if r < 57:
+            return 'net:' + rng.choice(nets + ['nonexistent'])
+        pt = '-' if rng.randrange(4) else pref_tok(rng.choice(rows_by_net[rng.choice(nets)]), rng)
+        wt = rng.choice(['-', '-', '-', 'e'] + WTS)
+        ms = rng.choice('nnntf')
+        if r < 72:
+            return 'xprv:%s:%s:%s:%s' % (pt, wt, ms, imp())
+        if r < 84:
+            return 'xpub:%s:%s:%s:%s' % (pt, wt, ms, imp())
+        child = rng.choice(['-', '-', '0', str(rng.choice(CHILDREN)), str(rng.randrange(2 ** 32))])
+        return 'x:%s:%s:%s:%s:%s:%s' % (rng.choice('ntf'), child, pt, wt, ms, imp())
+
+    for i in range(1500 if big else 90):
+        hd = bool(i % 3)
+        n = nets[i % len(nets)]
+        priv = bool(i % 7)
+        comp = bool(i % 5) or not priv and bool(i % 2)
+        wt = rng.choice(WTS) if n in full else 'legacy'
+        ms = rng.randrange(3) == 0
+        plain = hd and priv and i % 11 == 0
+        mode = ('H' if hd else 'K') + ('W' if (priv and (plain or (not hd and i % 4 == 0))) else '')
+        session(mode, km(i * 3 + 1, priv, comp, n, wt, ms and mode != 'HW', hd, plain=plain),
+                [rand_op(hd, None) for _ in range(rng.randrange(4, 11))])
+    return out
 
 
 def on_curve(b):
@@ -423,12 +575,37 @@ def model_req(c):
     return FLAGS + ('t' if b is None or on_curve(b) else 'f') + ' ' + c.req
 
 
+def strip_addr(seg):
+    """a session step without the parts the model leaves to the oracle (address text, BIP38 text)"""
+    body, _, fl = seg.rpartition(' # ')
+    if body.startswith('A comp='):
+        body = body.split(' a=')[0]
+    return body, fl
+
+
+def same_seq(impl_out, model_out):
+    a, b = impl_out.split(' || '), model_out.split(' || ')
+    if len(a) != len(b):
+        return False
+    for x, y in zip(a, b):
+        (bx, fx), (by, fy) = strip_addr(x), strip_addr(y)
+        if fx != fy:
+            return False
+        if by in ('UNMODELLED', 'OPAQUE'):       # explicit prefix of another shape / encrypt(), as_dict(), repr(): fields compared only
+            continue
+        if bx != by:
+            return False
+    return True
+
+
 def same(c, impl_out, model_out):
+    if c.kind == 'seq' and ' # ' in impl_out and ' # ' in model_out:
+        return same_seq(impl_out, model_out)
     return impl_out == model_out or 'UNMODELLED' in model_out
 
 
 def is_trivial(c, out):
-    return out.startswith(('ERR', 'NOKEY', 'EXPORT', 'BADREQ', 'CRASH', '-'))
+    return out.startswith(('ERR', 'NOKEY', 'EXPORT', 'BADREQ', 'CRASH', '-', 'BUILD'))
 
 
 # ---------------------------------------------------------------- property-level verdict on the implementation
@@ -508,7 +685,38 @@ def prop_check(c, out):
         return check_rtwif(t, out)
     if k == 'rtx':
         return check_rtx(t, out)
+    if k == 'wps':
+        return check_wps(t, out)
+    if k == 'nbw':
+        return check_nbw(t, out)
+    if k == 'seq':
+        return check_seq(t, out)
     return None
+
+
+def check_wps(t, out):
+    """wif_prefix_search(prefix, witness_type, multisig, network) against the frozen table: the rows carrying these version
+    bytes (and the filters), in table order"""
+    p, wt, ms, nw = t[1].upper(), t[2], t[3], t[4]
+    exp = []
+    for n, d in table().items():
+        if nw != '-' and nw != n:
+            continue
+        for r in d['prefixes_wif']:
+            if r[0].upper() == p and (wt == '-' or r[4] == wt) and (ms == 'n' or bool(r[3]) == (ms == 't')):
+                exp.append('%s/%s/%s/%s/%s/%s' % (n, '1' if r[2] == 'private' else '0', r[4], '1' if r[3] else '0', r[5], r[1]))
+    exp = ';'.join(exp) if exp else '-'
+    return None if out == exp else 'wif_prefix_search(%s) = %s, the frozen table (SLIP-0132 / chain parameters) says %s' % (
+        ' '.join(t[1:]), out[:200], exp[:200])
+
+
+def check_nbw(t, out):
+    """network_by_value('prefix_wif', v): the networks with this WIF version byte, by priority (stable, descending)"""
+    v = t[1].upper()
+    nets = [n for n, d in table().items() if d['prefix_wif'].upper() == v]
+    nets.sort(key=lambda n: -table()[n]['priority'])
+    exp = ','.join(nets) if nets else '[]'
+    return None if out == exp else 'network_by_value(prefix_wif, %s) = %s, the frozen table says %s' % (v, out, exp)
 
 
 def check_raw(t, out):
@@ -629,6 +837,11 @@ def check_rtx(t, out):
     x, g, imp = sp
     if prefix is None or not in_range:
         return None
+    if comp or as_priv:
+        exp = xkey_text(prefix, depth, fp, child, chain, (b'\0' + sec) if as_priv else pubc)
+        if x != exp:
+            return 'extended key export %s... differs from BIP32 serialisation with the %s/%s/%s/%s version bytes %s of SLIP-0132: %s...' % (
+                x[:16], net, wt, 'multisig' if ms else 'single', 'private' if as_priv else 'public', prefix, exp[:16])
     r = check_gkf_part(g, as_priv, ['hdkey_private'] if as_priv else ['hdkey_public'])
     if r:
         return r
@@ -675,6 +888,339 @@ def check_rtx(t, out):
             return 'import yields multisig=%s, prefix stands for %s' % (got_ms, cand_ms)
     elif msarg == 't' and not got_ms:
         return 'import with multisig=True yields multisig=False'
+    return None
+
+
+def xkey_text(prefix_hex, depth, fp, child, chain, keydata):
+    """BIP32 serialisation: version || depth || parent fingerprint || child number || chain code || key data, Base58Check"""
+    return b58check(bytes.fromhex(prefix_hex) + bytes([depth]) + fp + child.to_bytes(4, 'big') + chain + keydata)
+
+
+def h160(b):
+    return hashlib.new('ripemd160', hashlib.sha256(b).digest()).digest()
+
+
+BECH = 'qpzry9x8gf2tvdw0s3jn54khce6mua7l'
+
+
+def bech32_polymod(values):
+    gen = [0x3b6a57b2, 0x26508e6d, 0x1ea119fa, 0x3d4233dd, 0x2a1462b3]
+    chk = 1
+    for v in values:
+        b = chk >> 25
+        chk = (chk & 0x1ffffff) << 5 ^ v
+        for i in range(5):
+            chk ^= gen[i] if ((b >> i) & 1) else 0
+    return chk
+
+
+def segwit_v0(hrp, prog):
+    """BIP173 address of a version-0 witness program"""
+    acc, bits, data = 0, 0, [0]
+    for b in prog:
+        acc = (acc << 8) | b
+        bits += 8
+        while bits >= 5:
+            bits -= 5
+            data.append((acc >> bits) & 31)
+    if bits:
+        data.append((acc << (5 - bits)) & 31)
+    hx_ = [ord(c) >> 5 for c in hrp] + [0] + [ord(c) & 31 for c in hrp]
+    pm = bech32_polymod(hx_ + data + [0] * 6) ^ 1
+    return hrp + '1' + ''.join(BECH[d] for d in data + [(pm >> 5 * (5 - i)) & 31 for i in range(6)])
+
+
+def pref_bytes(tok):
+    """explicit version bytes of a session call: (given?, bytes or None when the text is not hexadecimal)"""
+    if tok == '-':
+        return False, None
+    if tok == 'e':
+        return True, b''
+    try:
+        return True, bytes.fromhex(tok[1:])
+    except ValueError:
+        return True, None
+
+
+def judge_wif_import(sec, comp, ver, hint, imp, hd):
+    """re-import of Base58Check(ver || sec || flag) with / without a network hint"""
+    cands = wif_networks(ver.hex()) if len(ver) == 1 else []
+    if not cands or any(q.startswith(ver.hex().upper()) for q in hd_prefixes()):
+        return None                       # not the version byte of any network: no claim
+    if not imp.startswith('OK '):
+        if imp == 'ERR ambiguous' and hint == '-' and len(cands) > 1:
+            return None
+        if hint != '-' and hint not in cands:
+            return None
+        return 'import of an exported WIF fails: ' + imp
+    d = parse_kv(imp)
+    if d['priv'] != '1':
+        return 'WIF imported as a public key'
+    if unhx(d['key']) != sec:
+        return 'WIF import yields secret %s, the object holds %s' % (d['key'], sec.hex())
+    if d['comp'] != ('1' if comp else '0'):
+        return 'WIF import yields compressed=%s, the object has compressed=%s' % (d['comp'], comp)
+    if hint != '-':
+        if d['net'] != hint:
+            return 'WIF import with network=%s yields %s' % (hint, d['net'])
+    elif d['net'] not in cands:
+        return 'WIF import yields network %s, version byte belongs to %s' % (d['net'], cands)
+    return None
+
+
+def judge_xkey_import(prefix, as_priv, sec, pubc, pubu, chain, depth, fp, child, hint, g, imp):
+    """get_key_format and HDKey(text, network=hint) on the serialisation with version bytes [prefix] (hex) of the frozen table"""
+    same_prefix = [(n, m, w) for (n, p, pr, m, w) in rows() if p == prefix]
+    if not same_prefix:
+        return None
+    r = check_gkf_part(g, as_priv, ['hdkey_private'] if as_priv else ['hdkey_public'])
+    if r:
+        return r
+    cand_nets = list(dict.fromkeys(n for n, _, _ in same_prefix))
+    if not imp.startswith('OK '):
+        if imp == 'ERR ambiguous' and hint == '-' and len(cand_nets) > 1:
+            return None
+        if hint != '-' and hint not in cand_nets:
+            return None
+        return 'import of an exported extended key fails: ' + imp
+    d = parse_kv(imp)
+    if d['priv'] != ('1' if as_priv else '0'):
+        return 'extended %s key imported with is_private=%s' % ('private' if as_priv else 'public', d['priv'])
+    got = unhx(d['key'])
+    if as_priv:
+        if got != sec:
+            return 'extended key import yields secret %s, the object holds %s' % (d['key'], sec.hex())
+    elif got not in (pubc, pubu):
+        return 'extended key import yields public key %s.., the object holds %s..' % (d['key'][:24], pubc.hex()[:24])
+    if unhx(d['chain']) != chain or int(d['depth']) != depth or unhx(d['fp']) != fp or int(d['child']) != child:
+        return 'extended key import changes chain/depth/fingerprint/child: %s' % imp[:200]
+    if hint != '-':
+        if d['net'] != hint:
+            return 'import with network=%s yields %s' % (hint, d['net'])
+    elif d['net'] not in cand_nets:
+        return 'import yields network %s, prefix belongs to %s' % (d['net'], cand_nets)
+    cand_wt = list(dict.fromkeys(w for _, _, w in same_prefix))
+    cand_ms = list(dict.fromkeys(m for _, m, _ in same_prefix))
+    if d['wt'] not in cand_wt:
+        return 'import yields witness type %s, prefix %s stands for %s' % (d['wt'], prefix, cand_wt)
+    if len(cand_ms) == 1 and (d['ms'] == '1') != cand_ms[0]:
+        return 'import yields multisig=%s, prefix %s stands for %s' % (d['ms'], prefix, cand_ms)
+    return None
+
+
+def check_seq(t, out):
+    """several calls on ONE object.  Every exported value is recomputed here from the protocol definitions, the frozen
+    table and the fields the object reports IN FRONT OF the call; the reported fields may change only as the call says."""
+    mode, m, ops = t[1], t[2:14], t[14:]
+    hd = mode[0] == 'H'
+    priv0, sec, pubc, pubu, comp0 = m[0] == 't', unhx(m[1]), unhx(m[2]), unhx(m[3]), m[4] == 't'
+    chain, depth, fp, child0, net0, wt, ms = unhx(m[5]), int(m[6]), unhx(m[7]), int(m[8]), m[9], m[10], m[11] == 't'
+    valid = (0 < int.from_bytes(sec, 'big') < N) if priv0 else on_curve(pubc if comp0 else pubu)
+    if out.startswith('BUILD'):
+        return None if (not valid or net0 not in table()) else 'construction of a valid key object fails: ' + out
+    segs = out.split(' || ')
+    if len(segs) != len(ops) or any(' # ' not in x for x in segs):
+        return 'unexpected answer %r' % out[:160]
+    st = {'p': priv0, 'c': comp0, 'net': net0, 'child': child0}
+    for i, (op, seg) in enumerate(zip(ops, segs)):
+        body, _, fl = seg.rpartition(' # ')
+        d = parse_kv(fl)
+        new = {'p': d['p'] == '1', 'c': d['c'] == '1', 'net': d['net'], 'child': int(d['child']) if d['child'] != '-' else child0}
+        r = judge_call(op.split(':'), body, st, new, hd, sec, pubc, pubu, chain, depth, fp, wt, ms)
+        if r:
+            return 'call %d (%s) of the session: %s' % (i + 1, op, r)
+        st = new
+    return None
+
+
+def judge_call(f, body, st, new, hd, sec, pubc, pubu, chain, depth, fp, wt, ms):
+    k = f[0]
+    # ---- what the call may do to the fields
+    allowed = dict(st)
+    if k == 'net':
+        if f[1] in table():
+            allowed['net'] = f[1]
+            if body != 'OK':
+                return 'network_change to a defined network answers ' + body
+        elif not body.startswith('ERR'):
+            return 'network_change to an undefined network answers ' + body
+    elif k == 'public':
+        allowed['p'] = False
+    elif k == 'addr':
+        allowed['c'] = new['c']                      # address(compressed=..) is allowed to record the flag
+    elif k == 'x' and f[2] not in ('-', '0'):
+        if new['child'] == int(f[2]):
+            allowed['child'] = new['child']          # child_index=c may stay with the object
+    if new != allowed:
+        return 'the object\'s fields changed from %s to %s' % (st, new)
+    # ---- the answer, from the fields in front of the call
+    if k == 'wif':
+        given, ver = pref_bytes(f[1])
+        if given and ver is None:
+            return None if body.startswith('ERR') else 'wif(prefix=<not hexadecimal>) answers ' + body[:60]
+        if not given:
+            ver = bytes.fromhex(table()[st['net']]['prefix_wif'])
+        if not st['p']:
+            return None if body.startswith('ERR') else 'wif() of a public key returns ' + body[:60]
+        sp = split_answer(body)
+        if sp is None:
+            return 'wif() of a private key fails: ' + body[:80]
+        x, g, imp = sp
+        exp = b58check(ver + sec + (b'\1' if st['c'] else b''))
+        if x != exp:
+            return 'wif() = %s, Base58Check(%s || secret || %s) on network %s = %s' % (x, ver.hex(), '01' if st['c'] else '', st['net'], exp)
+        if len(ver) == 1 and wif_networks(ver.hex()) and not any(q.startswith(ver.hex().upper()) for q in hd_prefixes()):
+            r = check_gkf_part(g, True, ['wif_compressed'] if st['c'] else ['wif'])
+            if r:
+                return r
+        if imp == '-':
+            return None
+        hint = st['net'] if f[2] == 'h' else '-'
+        return judge_wif_import(sec, st['c'], ver, hint, imp, hd)
+    if k in ('x', 'xprv', 'xpub'):
+        if k == 'x':
+            isp, child_a, ptok, wta, msa, imode = f[1], f[2], f[3], f[4], f[5], f[6]
+        else:
+            isp, child_a, ptok, wta, msa, imode = ('t' if k == 'xprv' else 'f'), '-', f[1], f[2], f[3], f[4]
+        as_priv = st['p'] and isp == 't'
+        wt_eff = wt if wta in ('-', 'e') else wta
+        child = st['child'] if child_a in ('-', '0') else int(child_a)
+        given, pb = pref_bytes(ptok)
+        if given and pb:
+            if len(pb) != 4:
+                return None
+            cands = [pb.hex().upper()]
+        else:
+            if msa == 't':
+                mss = [True]
+            elif msa == 'f' and ms:
+                mss = [True, False]               # multisig=False on a multisig key: either reading of the argument
+            else:
+                mss = [ms]
+            cands = [q for q in (spec_row_prefix(st['net'], as_priv, wt_eff, x) for x in mss) if q]
+        in_range = 0 <= depth < 256 and 0 <= child < 2 ** 32
+        if not cands or not in_range:
+            return None if body.startswith('ERR') else 'export without a table row / out of range returns ' + body[:60]
+        sp = split_answer(body)
+        if sp is None:
+            return 'export of a representable extended key fails: ' + body[:80]
+        x, g, imp = sp
+        keydata = (b'\0' + sec) if as_priv else pubc
+        exps = [xkey_text(q, depth, fp, child, chain, keydata) for q in cands]
+        if x not in exps:
+            return 'extended key export %s... on %s/%s/%s differs from the BIP32 serialisation of the current fields with version bytes %s: %s...' % (
+                x[:16], st['net'], wt_eff, 'private' if as_priv else 'public', '/'.join(cands), exps[0][:16])
+        used = cands[exps.index(x)]
+        if imp == '-' or any(pr != as_priv for (_, q, pr, _, _) in rows() if q == used):
+            return None                           # explicit version bytes of the other kind (xpub bytes on private data): no claim
+        hint = new['net'] if imode == 'h' else '-'
+        return judge_xkey_import(used, as_priv, sec, pubc, pubu, chain, depth, fp, child, hint, g, imp)
+    if k in ('hex', 'bytes', 'int'):
+        if not body.startswith('R='):
+            return 'raw export fails: ' + body[:80]
+        val, _, imp = body[2:].partition(' | ')
+        private = k == 'int' or f[1] == 't'
+        if private:
+            if not st['p']:
+                return None if val == 'None' else 'private raw form of a public key is ' + val[:40]
+            if k == 'int':
+                ok = val == 'i:%d' % int.from_bytes(sec, 'big')
+            else:                                   # the secret as bytes or as its hexadecimal text
+                ok = val in ('b:' + sec.hex(), 's:' + sec.hex().encode().hex())
+            if not ok:
+                return 'private raw form %s does not denote the secret %s' % (val[:80], sec.hex())
+            want = (True, sec, st['c'])
+        else:
+            forms = {}
+            for pk in (pubc, pubu):
+                forms['b:' + pk.hex()] = pk
+                forms['s:' + pk.hex().encode().hex()] = pk
+            if val not in forms or (k == 'hex') != val.startswith('s:'):
+                return 'public raw form %s is not the public point of the key' % val[:80]
+            want = (False, forms[val], len(forms[val]) == 33)
+        if imp == '-':
+            return None
+        if not imp.startswith('OK '):
+            return 'import of a raw export fails: ' + imp
+        dd = parse_kv(imp)
+        if dd['priv'] != ('1' if want[0] else '0') or unhx(dd['key']) != want[1]:
+            return 'raw export imports as priv=%s key=%s' % (dd['priv'], dd['key'])
+        if dd['comp'] != ('1' if want[2] else '0'):
+            return 'raw export imports with compressed=%s, expected %s' % (dd['comp'], want[2])
+        if dd['net'] != st['net']:
+            return 'raw import with network=%s yields %s' % (st['net'], dd['net'])
+        return None
+    if k == 'enc':
+        if not st['p']:
+            return None if body.startswith('ERR') else 'encrypt() of a public key returns ' + body[:60]
+        if body.startswith('ERR'):
+            return None                             # address() of the object refused (uncompressed + bech32): C04
+        dd = parse_kv(body)
+        e = dd.get('e', '')
+        if len(e) != 58 or e[:2] != '6P':
+            return 'encrypt() returns %s, not a BIP38 string' % e[:70]
+        if 'priv=1' not in dd.get('g', '') or 'fmt=wif_protected' not in dd.get('g', ''):
+            return 'get_key_format on the BIP38 string: ' + dd.get('g', '')
+        dec = dd.get('d', '-')
+        if dec != '-':
+            if not dec.startswith('OK,'):
+                return 'decryption of the BIP38 string just produced fails: ' + dec
+            k2 = parse_kv(dec.replace(',', ' '))
+            if unhx(k2['key']) != sec or k2['comp'] != ('1' if st['c'] else '0'):
+                return 'BIP38 round trip yields key=%s comp=%s' % (k2['key'], k2['comp'])
+        return None
+    if k in ('dict', 'repr'):
+        if body.startswith('ERR'):
+            return None                             # address() / wif() of the object refused
+        xpub = xprv = None
+        if hd:
+            q = spec_row_prefix(st['net'], False, wt, ms)
+            if q and 0 <= depth < 256 and 0 <= st['child'] < 2 ** 32:
+                xpub = xkey_text(q, depth, fp, st['child'], chain, pubc)
+            q = spec_row_prefix(st['net'], True, wt, ms)
+            if q and st['p'] and 0 <= depth < 256 and 0 <= st['child'] < 2 ** 32:
+                xprv = xkey_text(q, depth, fp, st['child'], chain, b'\0' + sec)
+        if k == 'repr':
+            if 'network=%s)' % st['net'] not in body:
+                return 'repr() names another network than the object has: ' + body[:200]
+            if hd and xpub and 'wif_public=%s,' % xpub not in body:
+                return 'repr() shows %s, the extended public key of the current fields is %s' % (body[:160], xpub)
+            return None
+        dd = parse_kv(body)
+        exp = {'network': st['net'], 'compressed': str(st['c']), 'is_private': str(st['p'])}
+        if st['p']:
+            exp.update(private_hex=sec.hex(), secret=str(int.from_bytes(sec, 'big')),
+                       wif=b58check(bytes.fromhex(table()[st['net']]['prefix_wif']) + sec + (b'\1' if st['c'] else b'')))
+        if hd:
+            exp.update(child_index=str(st['child']), depth=str(depth), chain_code=chain.hex(), fingerprint_parent=fp.hex())
+            if xpub:
+                exp['extended_wif_public'] = xpub
+            if xprv:
+                exp['extended_wif_private'] = xprv
+        for key, want in exp.items():
+            if key in dd and dd[key] != want:
+                return 'as_dict()[%s] = %s, the current fields give %s' % (key, dd[key], want)
+        if dd.get('public_hex') not in (pubc.hex(), pubu.hex()):
+            return 'as_dict()[public_hex] = %s is not the public point of the key' % dd.get('public_hex')
+        return None
+    if k == 'addr':
+        dd = parse_kv(body)
+        a = dd.get('a', '')
+        if f[2] != '-' or a.startswith('ERR') or (hd and ms):
+            return None
+        comp = new['c']
+        data = pubc if comp else pubu
+        pa, ps, hrp = SN.address_prefixes(new['net'], table())
+        kind = wt if hd else 'legacy'
+        if kind == 'legacy':
+            exp = b58check(pa + h160(data))
+        elif not comp:
+            return None
+        elif kind == 'p2sh-segwit':
+            exp = b58check(ps + h160(b'\0\x14' + h160(data)))
+        else:
+            exp = segwit_v0(hrp, h160(data))
+        return None if a == exp else 'address() = %s, the %s address of the key on %s (compressed=%s) is %s' % (a, kind, new['net'], comp, exp)
     return None
 
 
